@@ -32,6 +32,7 @@ import (
 type c04Scenario struct {
 	Cfg        string   `json:"cfg"`
 	Mode       string   `json:"mode"`
+	ErrMsg     string   `json:"err_msg,omitempty"` // text of client-reported errors: "" (a sentence), empty, blank, multiline
 	Fates      []string `json:"fates"`    // per dispatch position: pass mismatch clienterr empty never setuperr
 	Marks      []string `json:"marks"`    // per dispatch position: "" failing flaky
 	Feedback   []bool   `json:"feedback"` // per dispatch position
@@ -166,6 +167,8 @@ func c04RunOne(t *testing.T, sc c04Scenario, prefix []int, expect []gate.PointRe
 		}
 	}()
 	order := c04Order(sc)
+	psClientErrMsg = sc.ErrMsg
+	defer func() { psClientErrMsg = "" }()
 	synctest.Test(t, func(t *testing.T) {
 		x = gate.Begin(prefix, expect)
 		obs = &c04Obs{}
@@ -472,9 +475,20 @@ func c04Scenarios(thorough bool) []c04Scenario {
 					if withFeedback && mode != "both" {
 						fbs = c04BoolTuples(m)
 					}
+					msgs := []string{""}
+					for _, ff := range f {
+						if ff == "clienterr" {
+							msgs = []string{"", "empty", "blank", "multiline"}
+						}
+					}
 					for _, fb := range fbs {
 						for _, e := range exits {
-							out = append(out, c04Scenario{Cfg: cfg, Mode: mode, Fates: f, Marks: mk, Feedback: fb, ClientExit: e.kind, ExitAt: e.at})
+							for _, em := range msgs {
+								if em != "" && (e.kind != "" || (m > 1 && em == "multiline")) {
+									continue
+								}
+								out = append(out, c04Scenario{Cfg: cfg, Mode: mode, Fates: f, Marks: mk, Feedback: fb, ClientExit: e.kind, ExitAt: e.at, ErrMsg: em})
+							}
 						}
 					}
 				}
@@ -640,7 +654,7 @@ func c04BatchScenarios(thorough bool) []c11Scenario {
 	if thorough {
 		maxN = 3
 	}
-	kinds := []string{"pass", "mismatch", "clienterr", "empty", "noresult"}
+	kinds := []string{"pass", "mismatch", "clienterr", "clienterr-blank", "empty", "noresult"}
 	marks := []string{"", "failing", "flaky"}
 	for n := 1; n <= maxN; n++ {
 		base := c11Scenario{N: n, StdinErr: "none", Resp: "ok", ExitAfter: -1, SendErrAt: -1}
@@ -675,6 +689,15 @@ func c04BatchScenarios(thorough bool) []c11Scenario {
 				s = base
 				s.Answers, s.Marks, s.RefServer, s.Stderr = ans, mk, true, []string{"s/c0: server feedback: with a colon inside\n"}
 				out = append(out, s)
+				// peer feedback queued behind other stderr output while the runner's own stderr is slow
+				if n <= 2 {
+					for _, slow := range []int{4, 30} {
+						s = base
+						s.Answers, s.Marks, s.RefServer, s.SlowErr = ans, mk, true, slow
+						s.Stderr = []string{"some other output\n", "s/c0: server feedback after other output\n"}
+						out = append(out, s)
+					}
+				}
 				// peer feedback about a case that could not run (server died / client pipe closed / no result)
 				for k := 0; k <= n; k++ {
 					s = base
